@@ -41,7 +41,7 @@ func Map[K comparable, V any](orig map[K]V) map[K]V {
 }
 
 func OrderedMap[K comparable, V any](orig *orderedmap.OrderedMap[K, V]) *orderedmap.OrderedMap[K, V] {
-	if orig.Len() == 0 {
+	if orig == nil || orig.Len() == 0 {
 		return orderedmap.NewOrderedMap[K, V]()
 	}
 	c := orderedmap.NewOrderedMap[K, V]()
